@@ -302,7 +302,7 @@ func genHistory(r *Rng, n int, maxLine int) []opT {
 // ---------------------------------------------------------------- driver
 
 func runC15(c *Ctx) {
-	c.Res.Rule = "a case is (ConditionalLevel, TriggerLevel, destination kind LevelWriter|io.Writer, history of WriteLevel(level, line)/Trigger/Close); observed = per operation the destination calls made during it (level, bytes) and its result. Bounded-exhaustive: every history of <=4 operations over {W at 7 levels, Trigger, Close} for all 49 threshold pairs from {-128,-1,0,3,9,11,127} is run and monitored (the model evaluates all histories of <=2 operations, a fixed 1/4 of those of 3 and 1/32 of those of 4; thorough: all, and length 5 for 9 pairs); then seeded random histories (<=60 operations, random int8 levels != 10, random line bytes without interior newline, long lines, both destination kinds), a malformed stream for the correspondence only (level 10, interior newline, unterminated line, failing destination), and concurrent runs. non-trivial = something was held and later released or discarded, and something passed through; distinct by case text"
+	c.Res.Rule = "a case is (ConditionalLevel, TriggerLevel, destination kind LevelWriter|io.Writer, history of WriteLevel(level, line)/Trigger/Close); observed = per operation the destination calls made during it (level, bytes) and its result. Bounded-exhaustive: every history of <=4 operations over {W at 7 levels, Trigger, Close} for all 49 threshold pairs from {-128,-1,0,3,9,11,127} is run and monitored (the model evaluates all histories of <=2 operations, a fixed 1/4 of those of 3 and 1/32 of those of 4; thorough: all, and length 5 for 9 pairs); then seeded random histories (<=40 operations, thorough <=80, random int8 levels != 10, random line bytes without interior newline, long lines, both destination kinds), a malformed stream for the correspondence only (level 10, interior newline, unterminated line, failing destination), and concurrent runs. non-trivial = something was held and later released or discarded, and something passed through; distinct by case text"
 	c.OpenShards("From Verif Require Import Base.Prelude Misc.Level Lts.Trigger Harness.C15H.\nOpen Scope Z_scope.",
 		"(tcfg * script * list op) * list (list dcall * mret)", "mismatches c15_run c15_eqb", 1000)
 
@@ -418,8 +418,10 @@ func runC15(c *Ctx) {
 		emit(cs, "all-levels", true, false)
 	}
 
-	// 4. seeded random
-	nrand := 1500
+	// 4. seeded random (smaller shards: the cases are long)
+	c.OpenShards("From Verif Require Import Base.Prelude Misc.Level Lts.Trigger Harness.C15H.\nOpen Scope Z_scope.",
+		"(tcfg * script * list op) * list (list dcall * mret)", "mismatches c15_run c15_eqb", 100)
+	nrand := 1000
 	if c.Thorough() {
 		nrand = 30000
 	}
@@ -434,11 +436,15 @@ func runC15(c *Ctx) {
 		if r.Chance(40) {
 			cs.Cond, cs.Trig = 0, 3 // the documented use
 		}
-		maxLine := 12
-		if r.Chance(5) {
-			maxLine = 400
+		maxLine := 10
+		if r.Chance(3) {
+			maxLine = 300
 		}
-		cs.Ops = genHistory(r, 1+r.Intn(60), maxLine)
+		nops := 1 + r.Intn(40)
+		if c.Thorough() {
+			nops = 1 + r.Intn(80)
+		}
+		cs.Ops = genHistory(r, nops, maxLine)
 		emit(cs, "random", true, i < 4)
 	}
 
